@@ -75,7 +75,10 @@ def main(prop, tier, seed):
     allowed = ACTSETS[prop]
     eps = []
     A = [a for a in sessgen.actions(tier) if allowed(a[0])]
+    only = os.environ.get("VERIF_ONLY_CFG")
     for cfg in sessgen.cfgs():
+        if only and cfg["name"] not in only.split(","):
+            continue
         N = calib.get(cfg["name"], 12)
         for k in range(0, N + 2):
             for target in ("c0", "s0"):
